@@ -176,6 +176,61 @@ def dfs_schedules(run, bound, limit):
         prefix = nxt
 
 
+def spread_schedules(run, bound, limit, rng=None):
+    """Systematic schedules with at most `bound` preemptions, spread evenly over the whole execution.
+
+    The non-preemptive schedule is run first; then every (decision point, alternative) single deviation - all
+    of them when they fit the limit, otherwise an even stride over the positions; the remaining budget goes to
+    seeded pairs (and triples for bound 3) of deviations.  Unlike depth-first enumeration under a limit this
+    reaches early as well as late preemption points.  Yields each chooser after its run."""
+    import random as _random
+
+    rng = rng or _random.Random(0)
+    base = ReplayChooser([])
+    run(base)
+    yield base
+    n = 1
+    points = [(d, alt) for d, (k, cc) in enumerate(base.meta) for alt in range(1, k)]
+    if not points or limit <= 1:
+        return
+    budget1 = limit - 1 if bound < 2 else max(1, (limit - 1) * 2 // 3)
+    stride = max(1, -(-len(points) // budget1))
+    offset = rng.randrange(stride)
+    singles = points[offset::stride]
+    for d, alt in singles:
+        ch = ReplayChooser(base.trace[:d] + [alt])
+        run(ch)
+        n += 1
+        yield ch
+        if n >= limit:
+            return
+    if bound < 2:
+        return
+    while n < limit:
+        k = 2 if bound == 2 or rng.random() < 0.6 else 3
+        first = rng.choice(points)
+        ch1 = ReplayChooser(base.trace[: first[0]] + [first[1]])
+        # deviations after the first one are drawn against the trace that the first deviation produces
+        prefix = base.trace[: first[0]] + [first[1]]
+        ok = True
+        for _ in range(k - 1):
+            probe = ReplayChooser(prefix)
+            run(probe)
+            n += 1
+            yield probe
+            later = [(d, alt) for d, (kk, cc) in enumerate(probe.meta) for alt in range(1, kk) if d >= len(prefix)]
+            if not later or n >= limit:
+                ok = False
+                break
+            d, alt = rng.choice(later)
+            prefix = probe.trace[:d] + [alt]
+        if ok and n < limit:
+            ch = ReplayChooser(prefix)
+            run(ch)
+            n += 1
+            yield ch
+
+
 # ---------------------------------------------------------------------------
 
 
